@@ -140,14 +140,6 @@ func runC14(r *Run) {
 		c14ErrGate(r, fix, "FixLogLeaf:errors", "(*trillian/ctfe.indirectIssuanceChainService).getByHash", 2, leafWrites)
 		c14ErrGate(r, fix, "FixLogLeaf:errors", "asn1.Unmarshal", 2, leafWrites)
 		c14ErrGate(r, fix, "FixLogLeaf:errors", "tls.Marshal", 2, leafWrites)
-		for _, c := range CallsTo(fix, "asn1.Unmarshal") {
-			rest := CallResult(c, 0)
-			if rest == nil {
-				r.Fail("FixLogLeaf:chain-trailing", r.Where(c), "the remainder of asn1.Unmarshal is discarded")
-				continue
-			}
-			r.FailEdge(fix, "FixLogLeaf:"+shortErr(r.D.D(CallArgs(c)[1])), EdgeSpec{Name: "chain-trailing-bytes", Atom: ordAtomR("len("+r.D.D(rest)+")", "0"), Bad: ">", Want: wantErr(false)})
-		}
 		stores := r.StoresTo(fix, "&(p2.ExtraData)")
 		r.Check("FixLogLeaf:extra-data-stores", len(stores) == 2, r.FnPos(fix), fmt.Sprintf("%d stores to leaf.ExtraData (one per hash layout)", len(stores)))
 		for _, st := range stores {
@@ -179,6 +171,11 @@ func runC14(r *Run) {
 				if glob("*"+h, r.D.D(CallArgs(c.(ssa.CallInstruction))[2])) {
 					mine = append(mine, c)
 				}
+			}
+			if other := c14OtherLengthTest(r, fix, h); other != "" {
+				// the skip is decided by a comparison of the hash's length with something else than 0
+				r.Fail("FixLogLeaf:"+hashType+":lookup-unless-empty", r.FnPos(fix), "the chain lookup may be skipped only for an empty hash (len == 0), but what decides it is "+other+": a stored hash of another length would be re-inflated to an empty chain without any lookup")
+				continue
 			}
 			r.MustGuardAfter(fix, "FixLogLeaf:"+hashType+":lookup-unless-empty", "ord(0, len("+h+"))", "=,>", mine, "chain lookup")
 			// and with a non-empty hash the store is unreachable without the lookup: from the length test the store is reached only through the lookup block
@@ -223,32 +220,9 @@ func runC14(r *Run) {
 				r.Check(k, ok, r.Where(p.call), "an entry stored with its full chain is served unchanged (return nil, no store)")
 			}
 		}
-		// bytes after the stored chain ⇒ error, and the leaf is not rewritten
-		nTrail := 0
-		for _, c := range CallsTo(fix, "asn1.Unmarshal") {
-			errv, rest := CallResult(c, 1), CallResult(c, 0)
-			if errv == nil || rest == nil {
-				r.Fail("FixLogLeaf:stored-chain-trailing-data", r.Where(c), "result of asn1.Unmarshal ignored")
-				continue
-			}
-			nTrail++
-			s := Sigma{"nil?" + r.D.D(errv): "nil", "ord(0, len(" + r.D.D(rest) + "))": "<"}
-			reach := r.D.Walk(fix, s, c.Block(), nil)
-			r.Valuations++
-			ok := true
-			why := ""
-			for _, ret := range reachableReturns(fix, reach) {
-				if !nonNilUnder(ret.Results[0], reach) {
-					ok, why = false, "a return that may be nil is reachable at "+r.Where(ret)
-				}
-			}
-			for _, st := range stores {
-				if reach.Has(st) {
-					ok, why = false, "the leaf is rewritten"
-				}
-			}
-			r.Check("FixLogLeaf:stored-chain-trailing-data", ok, r.Where(c), "bytes after the stored issuance chain are an error and the leaf stays as it is "+why)
-		}
+		// bytes after the stored chain ⇒ error, and the leaf is not rewritten: decided on the value each
+		// return yields on the path that leads to it (rules_t6c14.go)
+		nTrail := c14StoredChainTrailing(r, fix, stores)
 		r.Floor("FixLogLeaf asn1.Unmarshal of stored chains", nTrail, 2)
 		// under all four decodes failing, only the error return is reachable
 		s := Sigma{}
